@@ -875,6 +875,27 @@ def _consistent(literals):
                                 lt.add((i, j))
                             elif dlt < 0:
                                 lt.add((j, i))
+            # negation reverses the order over the reals: a < b  <=>  -b < -a  (`D < -c` and `c < -D` are the same fact)
+            negmap = {}
+            for x, i in items:
+                for y, j in items:
+                    if i < j and i not in negmap and j not in negmap:
+                        try:
+                            if sp.expand(x + y) == 0:
+                                negmap[i] = j
+                                negmap[j] = i
+                        except Exception:      # noqa
+                            pass
+            if negmap:
+                for (i, j) in list(lt):
+                    if i in negmap and j in negmap:
+                        lt.add((negmap[j], negmap[i]))
+                for (i, j) in list(le):
+                    if i in negmap and j in negmap:
+                        le.add((negmap[j], negmap[i]))
+                for (i, j) in list(ne):
+                    if i in negmap and j in negmap:
+                        ne.add((negmap[i], negmap[j]))
         # integers are discrete: x < y implies x <= y - 1 and x + 1 <= y (neither y - 1 nor x + 1 can wrap when x < y)
         if dom in ('s', 'u') and lt:
             items = list(nodes.items())
